@@ -8,8 +8,121 @@ from .. import tlc
 from ..common import Report, pmap
 from ..e2e import directed
 
-FAMILY = r"^move\.(stages|displacement|shape)"
-DRIVERS = {"e2e-shear": ("harness.e2e", "run_e2e", "LadimTrace", FAMILY)}
+FAMILY = r"^move\.(stages|displacement|shape)|^helper\.|^order\."
+DRIVERS = {"e2e-shear": ("harness.e2e", "run_e2e", "LadimTrace", FAMILY),
+           "analytic-helpers": ("harness.checks.c01", "helper_trace", "HelperTrace", FAMILY),
+           "convergence-order": ("harness.checks.c01", "order_trace", "HelperTrace", FAMILY)}
+
+
+def helper_trace(sc):
+    """ladim.analytical.get_velocity1/2/4 with a scripted sample function (fresh lattice values at every call)"""
+    import numpy as np
+    from ladim import analytical
+    from ..enc import lat
+    ev = [dict(ev="setup")]
+    rng = random.Random(sc["seed"])
+
+    class St:
+        pass
+    for _ in range(sc["n"]):
+        which = rng.choice([1, 2, 4])
+        sn, sd = rng.choice([(1, 2), (1, 1), (3, 4), (1, 1)]) if which == 2 else (1, 1)
+        dt = rng.choice([1, 2, 4, 8])
+        st = St()
+        x0, y0 = rng.randrange(0, 4096 * 20), rng.randrange(0, 4096 * 20)
+        st.X, st.Y = np.array([x0 / 4096.0]), np.array([y0 / 4096.0])
+        calls, given = [], []
+
+        def sample(x, y):
+            cx, o1 = lat(np.asarray(x).ravel()[0], 4096)
+            cy, o2 = lat(np.asarray(y).ravel()[0], 4096)
+            calls.append([cx, cy, bool(o1 or o2)])
+            # multiples of 12/64 keep s = 3/4 and the RK4 sixths on the lattice
+            u, v = 12 * rng.randrange(-8, 9), 12 * rng.randrange(-8, 9)
+            given.append([u, v])
+            return np.array([u / 64.0]), np.array([v / 64.0])
+        try:
+            if which == 1:
+                r = analytical.get_velocity1(st, sample, dt)
+            elif which == 2:
+                r = analytical.get_velocity2(st, sample, dt, s=sn / sd) if (sn, sd) != (1, 1) or rng.random() < 0.5 else analytical.get_velocity2(st, sample, dt)
+            else:
+                r = analytical.get_velocity4(st, sample, dt)
+            ru, o1 = lat(np.asarray(r[0]).ravel()[0], 6 * 4096)
+            rv, o2 = lat(np.asarray(r[1]).ravel()[0], 6 * 4096)
+            ev.append(dict(ev="helper", which=which, sn=sn, sd=sd, dt=dt, x0=x0, y0=y0, calls=[c[:2] for c in calls], given=given, res=[ru, rv],
+                           off=bool(o1 or o2 or any(c[2] for c in calls))))
+        except Exception as e:
+            ev.append(dict(ev="crash", what=f"{type(e).__name__}: {str(e)[:80]}"))
+    return ev
+
+
+def order_trace(sc):
+    """end-point error of the real Tracker on an analytic, time-dependent rotation for dt, dt/2, dt/4, dt/8"""
+    import math
+
+    import numpy as np
+    from ladim.tracker import Tracker
+    ev = [dict(ev="setup")]
+    dx, dy = sc["dx"], sc["dy"]
+    xc, yc = 50.0, 50.0
+    w0, T = sc["w0"], sc["T"]
+
+    def omega(t):
+        return w0 * (1.0 + 0.5 * math.sin(2 * math.pi * t / T))
+
+    def theta(t):
+        return w0 * (t - 0.5 * T / (2 * math.pi) * (math.cos(2 * math.pi * t / T) - 1.0))
+
+    class G:
+        xmin, xmax, ymin, ymax = 0.0, 100.0, 0.0, 100.0
+        def metric(self, X, Y): return np.full(len(X), dx), np.full(len(X), dy)
+        def ingrid(self, X, Y): return np.ones(len(X), bool)
+        def atsea(self, X, Y): return np.ones(len(X), bool)
+        def depth(self, X, Y): return np.full(len(X), 100.0)
+
+    class S(dict):
+        def __getattr__(self, k): return self[k]
+
+    class F:
+        variables = {}
+        def __init__(self): self.t0 = 0.0; self.dt = 1.0
+        def velocity(self, X, Y, Z, fractional_step=0, method="bilinear"):
+            w = omega(self.t0 + fractional_step * self.dt)
+            # dX/dt = u/dx = -w (y - yc) * dy/dx * ... : rotation in metres, converted per direction
+            return -w * (Y - yc) * dy, w * (X - xc) * dx * (dx / dy) * (dy / dx)
+
+    for adv in ("EF", "RK2", "RK4"):
+        errs = []
+        try:
+            for k in range(4):
+                n = sc["n0"] * 2 ** k
+                dt = sc["Ttot"] / n
+
+                class Tm:
+                    pass
+                tm = Tm()
+                tm.dt = np.timedelta64(int(round(dt * 1e6)), "us")
+                st = S(X=np.array([60.0, 55.0]), Y=np.array([50.0, 42.0]), Z=np.array([5.0, 5.0]), alive=np.ones(2, bool), active=np.ones(2, bool))
+                f = F()
+                tr = Tracker(advection=adv, modules=dict(time=tm, state=st, grid=G(), forcing=f))
+                tr.dt = dt
+                f.dt = dt
+                for i in range(n):
+                    f.t0 = i * dt
+                    tr.update()
+                th = theta(sc["Ttot"])
+                # exact flow map in metres (anisotropic cells: work in metres)
+                X0m, Y0m = (np.array([60.0, 55.0]) - xc) * dx, (np.array([50.0, 42.0]) - yc) * dy
+                Xe = xc + (X0m * math.cos(th) - Y0m * math.sin(th)) / dx
+                Ye = yc + (X0m * math.sin(th) + Y0m * math.cos(th)) / dy
+                errs.append(float(np.max(np.hypot((st["X"] - Xe) * dx, (st["Y"] - Ye) * dy))))
+            bad = any(not (e > 1e-11) for e in errs)
+            slopes = [int(round(1000 * math.log2(errs[i] / errs[i + 1]))) for i in range(len(errs) - 1)] if not bad else []
+            ev.append(dict(ev="order", adv=adv, slopes=slopes, bad=bool(bad), errs=[repr(e) for e in errs]))
+        except Exception as e:
+            ev.append(dict(ev="crash", what=f"{type(e).__name__}: {str(e)[:100]}"))
+    return ev
 
 
 def scenarios(tier, seed):
@@ -24,6 +137,12 @@ def run(tier, seed):
     traces = pmap("harness.e2e", "run_e2e", scs)
     rep.add_tv("e2e-shear", "LadimTrace", scs, traces, tlc.validate_traces("LadimTrace", traces, batch_events=1500), family=FAMILY)
     rep.require_counts("e2e-shear", {"moved": 300})
+    hs = [dict(seed=seed * 10 + k, n=200, cls={}) for k in range(16 if tier == "thorough" else 4)]
+    os_ = [dict(dx=dxy[0], dy=dxy[1], w0=w0, T=600.0, Ttot=1600.0, n0=32, cls={}) for dxy in ((100.0, 100.0), (80.0, 120.0)) for w0 in (0.002, 0.003)]
+    ot = pmap("harness.checks.c01", "order_trace", os_)
+    rep.add_tv("convergence-order", "HelperTrace", os_, ot, tlc.validate_traces("HelperTrace", ot), family=FAMILY)
+    ht = pmap("harness.checks.c01", "helper_trace", hs)
+    rep.add_tv("analytic-helpers", "HelperTrace", hs, ht, tlc.validate_traces("HelperTrace", ht), family=FAMILY)
     rep.nontrivial = len({repr((s["fm"], s["rows"], s["adv"], s["dx"], s["dy"])) for s in scs if s["adv"] != "EF"})
     rep.rule = "sheared time-dependent flows, dx/dy in {128, 256} independently, EF/RK2/RK4; non-trivial = distinct scenarios with a multi-stage scheme"
     return rep
